@@ -52,17 +52,28 @@ func runC12(c *fw.Ctx) {
 		}
 		return k
 	}
+	pooled := r.Intn(5) == 0
+	var pool []wl.Entry
 	for i := 0; i < n; i++ {
 		k := mkKey()
 		if shape == 3 && i < 2 { // force a branch at the root
 			k[0] = byte(i*0x80) | k[0]&0x0f
 		}
 		v, w := g.Value()
+		if pooled && len(pool) > 0 && r.Intn(2) == 0 { // several entries with identical value and weight
+			e := pool[r.Intn(len(pool))]
+			v, w = e.Val, e.W
+		} else if pooled {
+			pool = append(pool, wl.Entry{Val: v, W: w})
+		}
 		if err := wl.Upd(src, k, v, w); err != nil {
 			c.Violate("", "Update failed: %v", err)
 			return
 		}
 		m[string(k)] = wl.Entry{Val: v, W: w}
+	}
+	if pooled {
+		c.Count("sources_with_equal_entries", 1)
 	}
 	lvl := -1
 	if collapsed {
@@ -250,7 +261,7 @@ func init() {
 		ID:    "C12",
 		Level: "exploration",
 		Rule: "cases enumerate root shape (empty, single entry, shared-prefix short root, branch root) x requested-key-set size in {0,1,2,5,9,10,11,12,20,40} (both sides of the >10 parallel collection path) x source (in memory with hashes finalised, or committed at a collapse level 0..5 and reopened from the hash or viewed through CopyRoot(level), in half of those cases with the trie the view was taken from updated afterwards); case 0 is one export of all keys of a 66 000-entry trie (far more than 2^17 nodes); " +
-			"requested keys mix present and absent ones; GetPath export -> Deserialize into a storage-less trie; then 1..10 mirrored updates/deletes restricted to requested keys on both tries. Oracle: Deserialize succeeds; Root()/Weight() of the partial trie equal the source's and the independent reference after import and after each operation; " +
+			"requested keys mix present and absent ones; a fifth of the sources hold several entries with identical value and weight; GetPath export -> Deserialize into a storage-less trie; then 1..10 mirrored updates/deletes restricted to requested keys on both tries. Oracle: Deserialize succeeds; Root()/Weight() of the partial trie equal the source's and the independent reference after import and after each operation; " +
 			"error/no-error outcomes agree. distinct non-trivial = distinct (case description, trace)",
 		Cases: func(tier string) int {
 			if tier == "thorough" {
@@ -259,7 +270,7 @@ func init() {
 			return 19200
 		},
 		Run:    runC12,
-		Floors: map[string]int64{"imports": 18000, "mirrored_ops": 50000, "imports_above_parallel_threshold": 5000, "imports_from_collapsed_source": 5000, "shape:0": 1000, "shape:1": 1000, "shape:2": 1000, "shape:3": 1000, "imports_from_copyroot_view": 2000, "views_whose_origin_moved_on": 800, "huge_exports": 1},
+		Floors: map[string]int64{"imports": 18000, "mirrored_ops": 50000, "imports_above_parallel_threshold": 5000, "imports_from_collapsed_source": 5000, "shape:0": 1000, "shape:1": 1000, "shape:2": 1000, "shape:3": 1000, "imports_from_copyroot_view": 2000, "views_whose_origin_moved_on": 800, "sources_with_equal_entries": 2500, "huge_exports": 1},
 		Race:   true,
 		Assumptions: []string{
 			"in-memory sources have their hashes finalised through Root() before GetPath (the usage the package's own tests show)",
